@@ -5,6 +5,7 @@ import (
 	"context"
 	"encoding/hex"
 	"fmt"
+	"math"
 	"strconv"
 	"strings"
 
@@ -164,6 +165,11 @@ func (txi *TxIndex) indexEvents(result *abci.TxResult, hash []byte, store dbm.Ba
 
 			// index if `index: true` is set
 			compositeTag := fmt.Sprintf("%s.%s", event.Type, string(attr.Key))
+			// tx.hash and tx.height are reserved: they always denote the hash and
+			// the height of the transaction itself (see keyForHeight)
+			if compositeTag == types.TxHashKey || compositeTag == types.TxHeightKey {
+				continue
+			}
 			if attr.GetIndex() {
 				err := store.Set(keyForEvent(compositeTag, attr.Value, result), hash)
 				if err != nil {
@@ -291,7 +297,12 @@ func (txi *TxIndex) Search(ctx context.Context, q *query.Query) ([]*abci.TxResul
 func lookForHash(conditions []query.Condition) (hash []byte, ok bool, err error) {
 	for _, c := range conditions {
 		if c.CompositeKey == types.TxHashKey {
-			decoded, err := hex.DecodeString(c.Operand.(string))
+			hashStr, isString := c.Operand.(string)
+			if !isString {
+				return nil, true, fmt.Errorf("%s must be compared with a string, got %v", types.TxHashKey, c.Operand)
+			}
+
+			decoded, err := hex.DecodeString(hashStr)
 			return decoded, true, err
 		}
 	}
@@ -302,7 +313,16 @@ func lookForHash(conditions []query.Condition) (hash []byte, ok bool, err error)
 func lookForHeight(conditions []query.Condition) (height int64) {
 	for _, c := range conditions {
 		if c.CompositeKey == types.TxHeightKey && c.Op == query.OpEqual {
-			return c.Operand.(int64)
+			// the operand may be any kind of value ("tx.height = 1.0", "tx.height = '1'");
+			// only a whole number names a height
+			switch h := c.Operand.(type) {
+			case int64:
+				return h
+			case float64:
+				if h == math.Trunc(h) && h > 0 && h < math.MaxInt64 {
+					return int64(h)
+				}
+			}
 		}
 	}
 	return 0
